@@ -13,7 +13,7 @@ import re
 import vlib
 
 PID = "C07"
-MON_FORMULAS = ["NoLeakToXR.ClaimOnly", "NoLeakToXR.ConnSecret", "NoLeakToXR.Other", "UserSpecPropagated",
+MON_FORMULAS = ["SyncSucceeds", "NoLeakToXR.ClaimOnly", "NoLeakToXR.ConnSecret", "NoLeakToXR.Other", "UserSpecPropagated",
                 "SelectionPropagated", "RevisionToXR.OnlyIfManual", "LabelsAnnotations.Propagated",
                 "LabelsAnnotations.ReservedNotPropagated", "ExternalNameToXR", "XRSidePreserved.ResourceRefs",
                 "XRSidePreserved.ConnSecret", "XRSidePreserved.ExternalName", "XRSidePreserved.Ownership", "ClaimRefSet",
@@ -88,9 +88,13 @@ def drive_and_judge(ctx, paths, chunk, rounds=2):
 
     with concurrent.futures.ThreadPoolExecutor(max_workers=len(paths)) as ex:
         s = vlib.merge_summaries(list(ex.map(one, range(len(paths)))))
-    if s.get("sync_errors") or s.get("upgrade_errors"):
-        raise vlib.Inconclusive("the real Sync / Upgrade returned errors on well-formed inputs (harness problem, the "
-                                "propagation formulas were not exercised): %s %s" % (s.get("sync_errors"), s.get("upgrade_errors")))
+    # (errors of the real Sync on these fault-free, well-formed vectors used to be taken for a harness problem (exit 2). They are
+    # judged now: formula SyncSucceeds - a sync that fails here fails on every retry. Only upgrade errors remain a harness matter.)
+    if s.get("upgrade_errors"):
+        raise vlib.Inconclusive("the real managed-fields Upgrade returned errors on well-formed inputs (harness problem): %s" % s.get("upgrade_errors"))
+    if s.get("sync_errors"):
+        vlib.log("  the real Sync returned errors on %d fault-free vectors (judged by SyncSucceeds): %s" %
+                 (sum(s["sync_errors"].values()), sorted(s["sync_errors"].items(), key=lambda kv: -kv[1])[:3]))
     viols, nlines = ctx.monitor("MonFieldPartition", prefix, heap="5g", par=6)
     scs = find_scenarios(paths, {v[2].split("/")[0] for v in viols})
     for formula, line, scid in viols:
